@@ -70,7 +70,32 @@ def find_class_shape():
     return out
 
 
-GENERATORS = [safe_to_import, find_class_shape]
+def types_to_dist_func():
+    t = ast.parse(_src('distance.py'))
+    for node in t.body:
+        if isinstance(node, ast.Assign) and any(isinstance(x, ast.Name) and x.id == 'TYPES_TO_DIST_FUNC' for x in node.targets):
+            rows = [(ast.unparse(e.elts[0]), ast.unparse(e.elts[1])) for e in node.value.elts]
+            out = ['/-- `deepdiff.distance.TYPES_TO_DIST_FUNC` (type, function), in dispatch order -/',
+                   'def typesToDistFunc : List (String × String) := ' + lean_list(['(%s, %s)' % (lean_str(a), lean_str(b)) for a, b in rows]), '']
+            fns = {}
+            for n2 in t.body:
+                if isinstance(n2, ast.FunctionDef) and n2.name in ('_get_numbers_distance', '_get_datetime_distance', '_get_date_distance',
+                                                                     '_get_timedelta_distance', '_get_time_distance', 'get_numeric_types_distance'):
+                    src = ast.unparse(n2)
+                    # drop the docstring so that comment edits do not count
+                    if n2.body and isinstance(n2.body[0], ast.Expr) and isinstance(getattr(n2.body[0], 'value', None), ast.Constant):
+                        n3 = ast.FunctionDef(name=n2.name, args=n2.args, body=n2.body[1:] or [ast.Pass()], decorator_list=n2.decorator_list, returns=n2.returns, type_comment=None, lineno=0, col_offset=0)
+                        src = ast.unparse(ast.fix_missing_locations(n3))
+                    fns[n2.name] = src
+            out.append('/-- normalised source of the distance functions the model was written after -/')
+            for k in sorted(fns):
+                out.append('def distanceSrc_%s : String := %s' % (k.strip('_'), lean_str(fns[k])))
+            out.append('')
+            return out
+    raise ValueError('TYPES_TO_DIST_FUNC not found')
+
+
+GENERATORS = [safe_to_import, find_class_shape, types_to_dist_func]
 
 
 def generate():
